@@ -605,4 +605,5 @@ func main() {
 	genFlags(repo, out)
 	genConsts(repo, out)
 	genSync(repo, out)
+	genAccess(repo, out)
 }
